@@ -1,10 +1,16 @@
 import Dbg.Props.C10
-import Dbg.Model.KmerIter
+import Dbg.Lemmas.IterProofs
+import Dbg.Lemmas.SliceRefine
 /-! # C13 — K-mer extraction agrees across all containers
 
-Proved so far: the byte-vector / byte-slice wrappers (`DnaBytes`, `DnaSlice`): `get_kmer(pos)` spells
-bases `pos..pos+K`.  The block walk of `DnaString`/`Lmer::get_kmer` and the iterators are modelled and
-compared with the crate and the window reference on every run; their theorems are listed as partial. -/
+`KIter.Faithful v seq` says a container `v` stands for the base vector `seq`: it reports its length,
+reads every base, and `get_kmer(pos)` spells bases `pos..pos+K` (with the storage invariant of the k-mer
+type).  Every container is faithful (`C13_dnaString`, `C13_slice` in both orientations and at every
+offset, `C13_bytes`; `Lmer` in C17), for every k-mer configuration — so the theorems about faithful
+containers (`C13_iter`, `C13_iter_exts`, `C13_term`) hold for all of them: the iterator yields exactly
+`max(0, n-K+1)` k-mers in order, the `i`-th spelling bases `i..i+K`, and the extension iterator pairs
+each with its true flanking bases, using the caller's boundary extensions only at the two ends.  The bulk
+constructors `kmers_from_bytes/ascii` are C10's (`C10_kmersFromBytes`, `C10_kmersFromAscii`). -/
 namespace KIter
 open Kmer
 
@@ -20,5 +26,102 @@ theorem C13_bytes_getKmer (c : Cfg) (hc : c.WF) (bs : List Nat) (pos : Nat) (h :
 /-- out of range the wrappers refuse (slice index panic) -/
 theorem C13_bytes_getKmer_guard (c : Cfg) (bs : List Nat) (pos : Nat) (h : ¬ pos + c.K ≤ bs.length) :
     (ofBytes c bs).getKmer pos = none := by simp [ofBytes, h]
+
+/-- **C13 (DnaString).** The block walk reads `K` consecutive bases at every position, across block
+    boundaries, into every k-mer type (storage narrower or wider than the 64-bit blocks). -/
+theorem C13_dnaString (c : Cfg) (hc : c.WF) (d : DnaStr.T) (h : DnaStr.Inv d) : Faithful (ofDnaString c d) (DnaStr.toSeq d) where
+  len := (DnaStr.toSeq_length d h).symm
+  base := DnaStr.toSeq_lt4 d h
+  get := fun i hi => by
+    have hi' : i < d.len := by rwa [DnaStr.toSeq_length d h] at hi
+    show DnaStr.get d i = _
+    rw [DnaStr.get_spec d h i hi', List.getElem?_eq_getElem hi]
+  kmer := fun pos hp => by
+    rw [DnaStr.toSeq_length d h] at hp
+    obtain ⟨s, e, i, t⟩ := DnaStr.getKmer_spec c hc d h pos hp
+    exact ⟨s, e, i, t⟩
+
+theorem C13_dnaString_guard (c : Cfg) (d : DnaStr.T) (pos : Nat) (hp : ¬ pos + c.K ≤ d.len) :
+    (ofDnaString c d).getKmer pos = none := DnaStr.getKmer_guard c d pos hp
+
+/-- **C13 (slices).** Forward and reverse-complemented views at every offset. -/
+theorem C13_slice (c : Cfg) (hc : c.WF) (hw : c.w ∈ [8, 16, 32, 64, 128]) (d : DnaStr.T) (h : DnaStr.Inv d)
+    (s : DnaStr.Slice) (hv : DnaStr.Slice.Valid d s) : Faithful (ofSlice c d s) (DnaStr.Slice.seq d s) where
+  len := (DnaStr.Slice.seq_length d h s hv).symm
+  base := DnaStr.Slice.seq_lt4 d h s
+  get := fun i hi => by
+    have hi' : i < s.length := by rwa [DnaStr.Slice.seq_length d h s hv] at hi
+    show DnaStr.Slice.get d s i = _
+    rw [DnaStr.Slice.get_spec d h s hv i hi', List.getElem?_eq_getElem hi]
+  kmer := fun pos hp => by
+    rw [DnaStr.Slice.seq_length d h s hv] at hp
+    obtain ⟨k, e, i, t⟩ := DnaStr.Slice.getKmer_spec c hc hw d h s hv pos hp
+    exact ⟨k, e, i, t⟩
+
+/-- **C13 (byte wrappers)** `DnaBytes` / `DnaSlice` -/
+theorem C13_bytes (c : Cfg) (hc : c.WF) (bs : List Nat) (hb : ∀ b ∈ bs, b < 4) : Faithful (ofBytes c bs) bs where
+  len := rfl
+  base := hb
+  get := fun i hi => by show bs[i]? = _; exact List.getElem?_eq_getElem hi
+  kmer := fun pos hp => by
+    obtain ⟨s, e, t, i⟩ := C13_bytes_getKmer c hc bs pos hp hb
+    exact ⟨s, e, i, t⟩
+
+/-- **C13 (iterator).** For any faithful container: exactly `max(0, n-K+1)` items, in order, the
+    `i`-th spelling bases `i..i+K`. -/
+theorem C13_iter (c : Cfg) (hc : c.WF) (v : Cont c) (seq : List Nat) (hf : Faithful v seq) :
+    ∃ ks, iterKmers v = some ks ∧ ks.length = seq.length + 1 - c.K ∧
+      ks.map (toSeq c) = (List.range (seq.length + 1 - c.K)).map (fun i => (seq.drop i).take c.K) ∧ ∀ k ∈ ks, Inv c k := by
+  obtain ⟨ks, e, m, i⟩ := iterKmers_spec hc v seq hf
+  refine ⟨ks, e, ?_, m, i⟩
+  have := congrArg List.length m
+  simpa using this
+
+/-- **C13 (extension iterator).** Each k-mer is paired with its true flanking bases; the caller's
+    boundary extensions are used only on the left of the first and on the right of the last k-mer. -/
+theorem C13_iter_exts (c : Cfg) (hc : c.WF) (v : Cont c) (seq : List Nat) (hf : Faithful v seq) (exts : Nat) :
+    ∃ ks, iterKmerExts v exts = some ks ∧
+      ks.map (fun p => (toSeq c p.1, p.2)) =
+        (List.range (seq.length + 1 - c.K)).map (fun i => ((seq.drop i).take c.K, specExt seq c.K exts i)) ∧
+      ∀ k ∈ ks, Inv c k.1 := iterKmerExts_spec hc v seq hf exts
+
+/-- the extension byte: low nibble = bit of the preceding base (or the caller's low nibble at the left
+    end), high nibble = bit of the following base (or the caller's high nibble at the right end) -/
+theorem C13_specExt (seq : List Nat) (K exts i : Nat) :
+    specExt seq K exts i =
+      ((if i = 0 then exts else (1 <<< seq.getD (i - 1) 0) % 256) &&& 15) |||
+      ((if i + K < seq.length then (1 <<< (seq.getD (i + K) 0 + 4)) % 256 else exts) &&& 240) := rfl
+
+/-- **C13 (first / last / terminal k-mers).** -/
+theorem C13_term (c : Cfg) (v : Cont c) (seq : List Nat) (hf : Faithful v seq) :
+    (c.K ≤ seq.length →
+      (∃ s, firstKmer v = some s ∧ Inv c s ∧ toSeq c s = seq.take c.K) ∧
+      (∃ s, lastKmer v = some s ∧ Inv c s ∧ toSeq c s = (seq.drop (seq.length - c.K)).take c.K)) ∧
+    (seq.length < c.K → lastKmer v = none) := by
+  refine ⟨fun hK => ?_, lastKmer_short v seq hf⟩
+  obtain ⟨h1, h2⟩ := termKmer_spec v seq hf hK
+  exact ⟨by simpa [win] using h1, h2⟩
+
+/-- the iterator's items are the same storage words as `get_kmer(i)` (uniqueness of representation) -/
+theorem C13_iter_eq_getKmer (c : Cfg) (hc : c.WF) (v : Cont c) (seq : List Nat) (hf : Faithful v seq) (ks : List (St c))
+    (he : iterKmers v = some ks) (i : Nat) (hi : i + c.K ≤ seq.length) : v.getKmer i = ks[i]? := by
+  obtain ⟨ks', e, m, inv⟩ := iterKmers_spec hc v seq hf
+  rw [he] at e; cases e
+  obtain ⟨s, e, si, st⟩ := hf.kmer i hi
+  have hlen : ks.length = seq.length + 1 - c.K := by simpa using congrArg List.length m
+  have hi' : i < ks.length := by omega
+  rw [e, List.getElem?_eq_getElem hi']
+  congr 1
+  apply toSeq_inj hc _ _ si (inv _ (List.getElem_mem _))
+  have := congrArg (·[i]?) m
+  simp only [List.getElem?_map, List.getElem?_eq_getElem hi', Option.map_some] at this
+  rw [List.getElem?_eq_getElem (by simp; omega)] at this
+  simp only [List.getElem_range, Option.map_some, Option.some.injEq] at this
+  rw [st, this]
+
+/-- non-vacuity: a 70-base string (three blocks) is a faithful container for a 24-mer in a 64-bit word -/
+example : ∃ d, DnaStr.fromBytes (List.replicate 70 2) = some d ∧ Faithful (ofDnaString ⟨64, 24, true⟩ d) (List.replicate 70 2) := by
+  obtain ⟨d, e, i, t, _⟩ := DnaStr.fromBytes_spec (List.replicate 70 2) (by intro b hb; rw [List.mem_replicate] at hb; omega)
+  exact ⟨d, e, t ▸ C13_dnaString _ ⟨by decide, by decide, by decide⟩ d i⟩
 
 end KIter
